@@ -6,3 +6,7 @@ import "go.nanomsg.org/mangos/v3/protocol"
 // id counter is seeded from the clock ("quasi-random"), i.e. by the
 // environment, so harnesses make it a solver variable.
 func ZZSetNextID(p protocol.Protocol, v uint32) { p.(*socket).nextID = v }
+
+// ZZAddNextID advances the id counter by d, as d requests (surveys) issued meanwhile on other contexts of the
+// socket would.
+func ZZAddNextID(p protocol.Protocol, d uint32) { p.(*socket).nextID += d }
